@@ -11,6 +11,7 @@ import json, os, re, shutil, subprocess, sys, tempfile, time, hashlib, random
 VERIF = os.path.dirname(os.path.dirname(os.path.abspath(__file__)))
 REPO = os.environ.get("YV_REPO", "/repo")
 SPEC = os.path.join(VERIF, "spec")
+OUTROOT = os.environ.get("YV_OUT", VERIF)     # evidence/ and replays/ go here (seeded-change trials write elsewhere)
 JAR = "/opt/veriftools/tla/tla2tools.jar:/opt/veriftools/tla/CommunityModules-deps.jar"
 NCPU = os.cpu_count() or 4
 
@@ -60,7 +61,9 @@ def run_tlc(scratch, module, cfg_text, tag, workers=None, timeout=1500, simulate
         f.write(cfg_text)
     meta = scratch.path("meta_" + tag)
     out = scratch.path("%s.out" % tag)
-    jopts = [gc, "-Xmx" + heap, "-Xss16m"]
+    jtmp = scratch.path("jtmp")
+    os.makedirs(jtmp, exist_ok=True)
+    jopts = [gc, "-Xmx" + heap, "-Xss16m", "-Djava.io.tmpdir=" + jtmp]     # TLC leaves a tlc-* directory per run in java.io.tmpdir
     if dfs:
         jopts.append("-Dtlc2.tool.queue.IStateQueue=StateDeque")
     cmd = ["java"] + jopts + ["-cp", JAR, "tlc2.TLC", "-workers", str(workers or NCPU), "-metadir", meta,
@@ -311,8 +314,9 @@ class Result:
             self.violations.append((key, record))
 
     def finish(self):
-        os.makedirs(os.path.join(VERIF, "evidence"), exist_ok=True)
-        os.makedirs(os.path.join(VERIF, "replays"), exist_ok=True)
+        os.makedirs(OUTROOT, exist_ok=True)
+        os.makedirs(os.path.join(OUTROOT, "evidence"), exist_ok=True)
+        os.makedirs(os.path.join(OUTROOT, "replays"), exist_ok=True)
         wall = time.time() - self.t0
         for key, (cnt, text, rec) in sorted(self.known_hits.items()):
             print("KNOWN-FINDING: property=%s key=%s x%d %s" % (self.prop, key, cnt, text))
@@ -328,7 +332,7 @@ class Result:
                     f.write(json.dumps({"key": key, "known": cnt, "rec": rec}, default=str) + "\n")
         for key, recs in seen.items():
             h = hashlib.sha1((self.prop + key + json.dumps(recs[0], sort_keys=True, default=str)).encode()).hexdigest()[:10]
-            path = os.path.join(VERIF, "replays", "%s_%s.json" % (self.prop, h))
+            path = os.path.join(OUTROOT, "replays", "%s_%s.json" % (self.prop, h))
             with open(path, "w") as f:
                 json.dump({"property": self.prop, "key": key, "count": len(recs), "cases": recs[:5]}, f, indent=1, default=str)
             paths.append(path)
@@ -339,7 +343,7 @@ class Result:
               "assumptions": self.assumptions, "wall_s": round(wall, 2), "violations": len(seen)}
         if not ev["coverage"]["samples"]:
             ev["coverage"]["samples"] = ["(none)"]
-        with open(os.path.join(VERIF, "evidence", "%s.json" % self.prop), "w") as f:
+        with open(os.path.join(OUTROOT, "evidence", "%s.json" % self.prop), "w") as f:
             json.dump(ev, f, indent=1, default=str)
         print("%s %s: %s  states=%d evaluations=%d nontrivial=%d wall=%.1fs" % (
             self.prop, self.tier, "VIOLATIONS=%d" % len(seen) if seen else "ok", self.cov["states"],
@@ -380,13 +384,13 @@ def parse_canon(s, code2name):
     return t
 
 
-def validate_trace(scratch, module, lines, tag, timeout=1500, heap="8g"):
+def validate_trace(scratch, module, lines, tag, timeout=1500, heap="8g", cfg_extra=""):
     """Write ndjson, run the trace specification with TLC, return (ok, rejected list, tlc result)."""
     path = scratch.path("%s.ndjson" % tag)
     with open(path, "w") as f:
         for ln in lines:
             f.write(json.dumps(ln) + "\n")
-    cfg = "SPECIFICATION Spec\nPOSTCONDITION TraceAccepted\nCHECK_DEADLOCK FALSE\n"
+    cfg = "SPECIFICATION Spec\n" + cfg_extra + "POSTCONDITION TraceAccepted\nCHECK_DEADLOCK FALSE\n"
     t = run_tlc(scratch, module, cfg, tag, workers=1, timeout=timeout, env={"TRACE": path}, heap=heap)
     text = open(t["out"], errors="replace").read()
     rej = [(int(m.group(1)), m.group(2), [x.strip().strip('"') for x in m.group(3).split('",')])
